@@ -68,6 +68,34 @@ func runC15(cfg *config) *Report {
 			continue
 		}
 		populateIDs(f, r)
+		if i%3 == 1 {
+			// a caller who prepares ONE control record (its ID and user field) and hands it to every bundle of a cash
+			// letter, then builds: each built bundle must come out with its own totals
+			shared := false
+			for ci := range f.CashLetters {
+				bs := f.CashLetters[ci].Bundles
+				if len(bs) < 2 || bs[0].BundleControl == nil {
+					continue
+				}
+				tmpl := *bs[0].BundleControl
+				for _, b := range bs {
+					b.SetControl(&tmpl)
+				}
+				shared = true
+			}
+			if shared {
+				ok := true
+				for ci := range f.CashLetters {
+					if f.CashLetters[ci].Create() != nil {
+						ok = false
+					}
+				}
+				if !ok || f.Create() != nil {
+					continue
+				}
+				rep.count("one-control-record-handed-to-every-bundle")
+			}
+		}
 		if i%4 == 1 {
 			// optional date left zero
 			for ci := range f.CashLetters {
